@@ -169,18 +169,25 @@ Definition acyclicb (g : graph) : bool :=
 
 Definition subset (l m : list node) : bool := forallb (fun x => mem x m) l.
 
-Definition op_ok (st : state) (o : op) : bool :=
+(* the base graph after the operation *)
+Definition next_graph (st : state) (o : op) : graph :=
   match o with
-  | NewSpec x _ bs =>
-      negb (mem x (map fst (gr st))) && subset bs (live st) && acyclicb ((x, bs) :: gr st)
-  | SetBases x bs =>
-      mem x (live st) && negb (Nat.eqb x root) && subset bs (live st)
-      && acyclicb ((x, bs) :: gr st)
+  | NewSpec x _ bs => (x, bs) :: gr st
+  | SetBases x bs => (x, bs) :: gr st
+  | Drop x => (x, []) :: gr st
+  end.
+
+(* new specifications are fresh, bases are live, the root is never rebased, only leaves die *)
+Definition shape_ok (st : state) (o : op) : bool :=
+  match o with
+  | NewSpec x _ bs => negb (mem x (map fst (gr st))) && subset bs (live st)
+  | SetBases x bs => mem x (live st) && negb (Nat.eqb x root) && subset bs (live st)
   | Drop x =>
       mem x (live st) && negb (Nat.eqb x root)
       && forallb (fun y => negb (mem x (bases (gr st) y))) (live st)
-      && acyclicb ((x, []) :: gr st)
   end.
+
+Definition op_ok (st : state) (o : op) : bool := shape_ok st o && acyclicb (next_graph st o).
 
 Fixpoint hist_ok (reorder : list node -> list node) (st : state) (ops : list op) : bool :=
   match ops with
